@@ -19,7 +19,7 @@ ASSUMPTIONS = []
 
 def pre_build():
     import translate
-    return [translate.gen_collective_scan()]
+    return [translate.gen_collective_scan(), translate.gen_coll_matrix()]
 
 
 def gen_cases(rng, tier):
@@ -155,10 +155,21 @@ def impl(case):
     sites = synth.make_sites(case['m'], [[c / 8 for c in p] for p in case['sites8']])
     df = pd.DataFrame(case['table'], columns=['atom index', 'start site', 'destination site', 'start time', 'stop time'])
     maxd, moved = _guard(case)
+    # labelled sites for the label-pair matrix (labels by site index, two or three kinds)
+    nlab = 2 + len(case['sites8']) % 2
+    lab = ['ABC'[k % nlab] for k in range(len(case['sites8']))]
+    sites = synth.make_sites(case['m'], [[c / 8 for c in p] for p in case['sites8']], labels=lab)
     coll = Collective(jumps=_FakeJumps(df), sites=sites, lattice=sites.lattice, max_steps=case['W'], max_dist=maxd)
-    return {'pairs': _pairs_out(coll, case['table']), 'solo': int(coll.n_solo_jumps), 'ncoll': int(coll.n_coll_jumps),
-            'coll_jumps': [[[int(a), int(b)], [int(c), int(d)]] for (a, b), (c, d) in coll.coll_jumps],
-            'maxd': maxd, 'moved': moved}
+    out = {'pairs': _pairs_out(coll, case['table']), 'solo': int(coll.n_solo_jumps), 'ncoll': int(coll.n_coll_jumps),
+           'coll_jumps': [[[int(a), int(b)], [int(c), int(d)]] for (a, b), (c, d) in coll.coll_jumps],
+           'maxd': maxd, 'moved': moved}
+    try:
+        mat = np.asarray(coll.site_pair_count_matrix())
+        pl = [tuple(p) for p in coll.site_pair_count_matrix_labels()]
+        out['spcm'] = {'labels': lab, 'pairs': [list(p) for p in pl], 'matrix': mat.tolist()}
+    except Exception as e:
+        out['spcm'] = {'error': f'{type(e).__name__}: {e}'[:200]}
+    return out
 
 
 def _impl_real(case):
@@ -234,6 +245,23 @@ def oracle(case, out):
     inv = {x for p in got for x in p}
     if not miss and not extra and out['ncoll'] != len(inv):
         fs.append(('collective/n-coll', f'n_coll_jumps {out["ncoll"]} but {len(inv)} jumps take part in a pair'))
+    sp = out.get('spcm')
+    if sp is not None and 'coll_jumps' in out:
+        if 'error' in sp:
+            if out['coll_jumps']:
+                fs.append(('collective/label-pair-matrix', f'site_pair_count_matrix raised {sp["error"]}'))
+        else:
+            lab, pl, mat = sp['labels'], [tuple(p) for p in sp['pairs']], sp['matrix']
+            allp = {(a, b) for a in lab for b in lab}
+            if len(set(pl)) != len(pl) or set(pl) != allp:
+                fs.append(('collective/label-pair-matrix', f'site_pair_count_matrix_labels {pl} is not every pair of the labels {sorted(set(lab))} once'))
+            else:
+                want_m = [[0] * len(pl) for _ in pl]
+                for (a, b), (c_, d) in out['coll_jumps']:
+                    want_m[pl.index((lab[a], lab[b]))][pl.index((lab[c_], lab[d]))] += 1
+                if mat != want_m:
+                    fs.append(('collective/label-pair-matrix', f'site_pair_count_matrix {mat} is not the count of the collective pairs by label pair {want_m} '
+                               f'(labels {lab}, pairs {out["coll_jumps"][:4]})'))
     return fs
 
 
